@@ -11,6 +11,7 @@ from .ty import *
 from .spec import SpecEval, Ctx, heap_load, _CMP, _BIN
 from .contracts import CONTRACTS, SPECS, REC_OF_CLASS, HEAPCLASSES, INLINE
 from .front import BUILTIN_EXC_BASES
+from .solve import check as hard_check
 
 QUICK_MS = 400
 
@@ -67,7 +68,7 @@ class Path:
             else:
                 nq += 1
         STATS['feas_checks'] += 1
-        if s.check() == z3.unsat:
+        if hard_check(s, QUICK_MS) == z3.unsat:
             return False
         if nq == 0:
             return True
@@ -75,7 +76,7 @@ class Path:
         s.set('timeout', QUICK_MS)
         for c in self.pc:
             s.add(c)
-        return s.check() != z3.unsat
+        return hard_check(s, QUICK_MS) != z3.unsat
 
     def assume(self, cond, tag=None):
         """add a branch condition; False if the path became infeasible"""
@@ -634,7 +635,17 @@ class Executor:
             hc = HEAPCLASSES[base.cls]
             if attr in hc.fields:
                 p.loads.append((f'{base.cls}.{attr}', base.z, node.lineno))
-                return [Res(p, heap_load(p.heap, base, base.cls, attr))]
+                fv = heap_load(p.heap, base, base.cls, attr)
+                if attr in getattr(hc, 'dynamic', ()):
+                    # attribute that __init__ does not create: reading it before its first store raises
+                    out = []
+                    q = p.fork()
+                    if q.assume(fv.isnone, ('unset', node.lineno)):
+                        out.append(Res(q, exc=VExc('AttributeError')))
+                    if p.assume(z3.Not(fv.isnone)):
+                        out.append(Res(p, fv.val))
+                    return out
+                return [Res(p, fv)]
             v = self.class_attr(base.cls, attr)
             if v is None:
                 raise VError(f'{base.cls}.{attr}: field not declared in the heap class ({self.where(node)})')
@@ -829,11 +840,24 @@ class Executor:
         def restore(p2, v):
             p2.env = saved
             return [Res(p2, v)]
-        rs = self.eval(lam.node.body, p)
+        try:
+            rs = self.eval(lam.node.body, p.fork())
+        except Unsupported as ex_:
+            # a lambda outside the subset whose body is a pure string rendering (the `ordinal` helper of
+            # check_retransmission_timer): result opaque, recorded as a dropped construct
+            if isinstance(lam.node.body, ast.BinOp) and isinstance(lam.node.body.left, ast.Constant) \
+                    and isinstance(lam.node.body.left.value, str):
+                note = ('opaque-lambda', self.module, lam.node.lineno)
+                if note not in self.dropped:
+                    self.dropped.append(note)
+                p.env = saved
+                return [Res(p, VStr(z3.Const(fresh_name('lam'), z3.StringSort())))]
+            raise
         out = []
         for r in rs:
             r.p.env = copy_env(saved)
             out.append(r)
+        p.env = saved
         return out
 
     def union_call(self, uv, meth, args, kwargs, p, node):
@@ -969,6 +993,11 @@ class Executor:
         cname = f'call:{short}#{self.call_index(node)}'
         for n, v in bound.items():
             t = c.params.get(n)
+            if isinstance(v, VRange) and t is not None and t.kind == 'list':
+                lo, hi = v.lo.conc(), v.hi.conc()
+                if lo is None or hi is None or hi - lo > 64:
+                    raise VError(f'range argument with symbolic bounds at {self.where(node)}')
+                v = self.mk_list([VInt(i) for i in range(lo, hi)], TInt)
             if t is not None and not isinstance(v, (VClass,)) and not isinstance(t, str):
                 if isinstance(v, VOpt) and t.kind != 'opt':
                     # an Optional passed where the callee needs a value: call-site obligation "not None"
@@ -1005,6 +1034,9 @@ class Executor:
             qctx.heap, qctx.ghost = q.heap, q.ghost
             cond = self.spec.bool(cl.ast, qctx)
             if q.assume(cond, ('callexc', node.lineno, short, cls)):
+                for src in getattr(c, 'exc_ensures', []) or []:
+                    # what the callee guarantees about the state it leaves behind when it raises
+                    q.add(self.spec.bool(ast.parse(src, mode='eval').body, qctx))
                 exc = self.sym_exception(cls, c, env, q, qctx)
                 out.append(Res(q, exc=exc))
         # normal outcome
@@ -1238,6 +1270,9 @@ class Executor:
     def store_tuple(self, target, v, p):
         elts = target.elts
         star = [i for i, e in enumerate(elts) if isinstance(e, ast.Starred)]
+        if isinstance(v, VRec) and v.name == 'Event':
+            # a queued trigger (handler, *args) taken out of IkeSa.pending_events
+            return self.bind(self.builtins.tuple_of_event(self, v, p), lambda p2, t: self.store_tuple(target, t, p2))
         if isinstance(v, VTuple):
             items = v.items
             if star:
@@ -1521,6 +1556,10 @@ class Executor:
         for n in names:
             if n in ls.locals:
                 h.env[n] = fresh(ls.locals[n], n)
+            elif n in h.env and isinstance(h.env[n], (VClass, VFunc, VBuiltin, VModule, VLambda, VConstDict, VGen)):
+                # a name bound to a function/class before the loop and re-bound inside it: unknown at the
+                # loop head (using it before the body assigns it is then an unknown-name error)
+                h.env.pop(n, None)
             elif n in h.env and not isinstance(h.env[n], tuple):
                 old = h.env[n]
                 h.env[n] = self.havoc_like(old, n, s)
@@ -1572,6 +1611,10 @@ class Executor:
                             for cl, g in goals:
                                 self.oblige(o.p, g, f'{fshort}/{cl.name}/preserve',
                                             cl.props, 'loop-preserve', s.lineno)
+                            fc = self.func_contract()
+                            if fc is not None and self.module in ('ikesa', 'ikesacontroller', 'xfrm'):
+                                # the loop frame assumed at the head is re-established by the body
+                                self.builtins.frame_obligations(self, o.p, fc, f'{fshort}/loop{k}', exceptional=False)
                             if ls.variant is not None:
                                 v1 = ops.as_int(self.spec.ev(ls.variant.ast, bctx)).z
                             else:
